@@ -156,7 +156,12 @@ def supportingDb (cut : List (String × MStmt)) (disjoints : List (String × Str
   let all := MStmt.prov label terms proof :: (essentials ++ neededStmts)
   let consts ← stmtsConstants all
   let mvs := stmtsMvs all
-  let constStmt := MStmt.const (sortDedup (defaultConstants ++ consts))
+  -- (F15) the typecodes of the floating statements kept for the needed metavariables
+  let keptTypecodes := cut.filterMap fun (_, st) =>
+    match st with
+    | .float _ tc v => if mvs.contains v then some tc else none
+    | _ => none
+  let constStmt := MStmt.const (sortDedup (defaultConstants ++ consts ++ keptTypecodes))
   let varStmt := if mvs.isEmpty then [] else [MStmt.var (sortDedup mvs)]
   let disjStmts := (disjoints.filter fun (a, b) => mvs.contains a && mvs.contains b).map fun (a, b) => MStmt.disj [a, b]
   let kept := cut.filterMap fun (name, st) =>
